@@ -10,6 +10,15 @@ STRENGTHENED = {
  "C11-1": "missed at first; the request side gained a blocking payload source that reports Interrupted three times",
  "C15-1": "missed at first (family outside the two-phase class); families now have a one-token prefix and suffix, and three such families joined the callgrind list",
  "C17-1": "missed at first; contexts 3 and 4 add decoy printer-state / printer-state-reasons attributes in non-printer groups before and after the printer group",
+ "C01-2": "missed by the quick tier at first (only three maximal-length atoms ran there); all length-boundary atoms now run in both tiers",
+ "C02-2": "missed at first (needs a memberAttrName token that carries an attribute NAME, outside the 16-token alphabet); C02 gained family (g): extended alphabet + iterative deep-nesting screen + isolated confirmation",
+ "C05-2": "missed at first (C05 injected no I/O errors, C07 excluded WouldBlock on the async side); C05 gained the I/O-error equivalence section",
+ "C06-2": "missed at first (no value longer than 4096 octets in the C06 inputs); long-value inputs added",
+ "C08-2": "missed at first (no zero-length buffer in the consumer alphabet); size 0 added",
+ "C14-2": "missed at first (no literal @ in the user-info alphabet); D-uri extended to 54 880 URIs",
+ "C15-2": "missed at first (needs a prefix and a two-token second phase); family class extended",
+ "C16-2": "missed at first (name unknown to the RFC 8011 table); extended registry consulted by the by-name rule",
+ "C18-2": "missed at first (only 0x040a / 0x0503 were scripted); statuses with a zero low byte added",
  "C18-1": "missed by C18 at first (caught by C17 from the start); C18 now scripts all 10 blocking reasons, scalar and inside a set",
 }
 def main():
